@@ -1,6 +1,6 @@
 //! Shared pieces: oracle gate, key provenance bundles, monitored calls.
 
-use crate::guard::{guarded, short_loc, PanicInfo};
+use crate::guard::{guarded, panic_key, short_loc, PanicInfo};
 use crate::props::StageOut;
 use crate::rngs::RecordingRng;
 use crate::sets::PS;
@@ -35,7 +35,7 @@ pub fn oracle_stage(ctx: &Ctx) -> StageOut {
 pub fn panic_violation(acc: &mut Acc, prop: &str, api: &str, class: &str, pi: &PanicInfo, replay: Value) {
     let loc = short_loc(&pi.location);
     acc.violation(
-        &format!("{prop}|panic|{loc}|{api}|{class}"),
+        &format!("{prop}|panic|{}|{api}|{class}", panic_key(pi)),
         format!("panic in {api} at {loc}: {} (also a C13 violation)", pi.message),
         replay,
     );
